@@ -21,7 +21,7 @@ func init() {
 		Level: "exploration",
 		Rule: "four enumerated program families: G1 shadowing = binding form x evaluable builtin name x use site x use expression (with and without a literal const in scope); " +
 			"G2 folding = all operator trees of depth 1 (thorough: depth 2 on a reduced pool) over the literal pool in 10 contexts with side-effect probes; " +
-			"G3 budget = scripts with several foldable sites and an imported module under OptimizerLimit 1,2,3,4,5,default; G4 const = const/iota groups used in folded expressions. " +
+			"G3 budget = scripts with several foldable sites and an imported module under OptimizerLimit 1,2,3,4,5,default; G4 const = const/iota groups used in folded expressions, and const groups whose implicitly repeated expression is re-evaluated under other bindings. " +
 			"Each program is compiled with NoOptimize and with the optimizer and both are run on equal globals/arguments; outcome = value (type-exact, NaN/-0 aware), probe log, output, globals, error name+message. " +
 			"A refusal by the optimizer alone must be an OptimizerError carrying the runtime error of one of the script's constant sub-expressions. " +
 			"non-trivial = the optimized instruction stream differs from the unoptimized one",
@@ -463,6 +463,43 @@ func g4(c *fw.Ctx) {
 					src = "global (L); const (a = iota, qq = " + v + ", e); return [a, " + u + ", e]"
 				}
 				check(c, prog{src: src, constSub: []string{v, strings.ReplaceAll(u, "qq", v), strings.ReplaceAll(u, "qq", "100"), strings.ReplaceAll(u, "qq", "7")}}, []int{0, 1, 2})
+			}
+		}
+	}
+	// const groups whose repeated expression is evaluated again under other bindings: a later spec re-declares a name
+	// that the expression uses, or the expression uses an earlier member of the same group
+	c.Family("G4:repeat", "const groups with implicit repetition: 8 expressions over an outer constant k, iota and the first member x 4 name lists (fresh names, k re-declared as 2nd or 3rd member) x 3 placements x 3 kinds of outer k")
+	rexprs := []string{"k + 1", "k + iota", "k * 2 + iota", "-k", "[k, iota][0]", "string(k) + \"!\"", "k == 100", "a0 + k"}
+	for _, e := range rexprs {
+		for _, names := range [][]string{{"b", "c2"}, {"k", "c2"}, {"b", "k"}, {"b", "c2", "k", "d"}} {
+			for place := 0; place < 3; place++ {
+				for _, outer := range []string{"const k = 100", "const k = 99 + 1", "k := 100"} {
+					if !c.Next() {
+						continue
+					}
+					first := "a = " + e
+					pre := ""
+					if strings.Contains(e, "a0") {
+						pre = "const a0 = 5; "
+					}
+					group := "const (" + first + ", " + strings.Join(names, ", ") + ")"
+					ret := "return [a, " + strings.Join(names, ", ") + "]"
+					var src string
+					switch place {
+					case 0:
+						if names[0] == "k" || names[len(names)-1] == "k" || len(names) == 4 {
+							// re-declaring k in the scope where it was declared is a compile error either way
+							src = "global (L); " + outer + "; " + pre + "if true { " + group + "; L(" + strings.Join(append([]string{"a"}, names...), ", ") + ") }; return k"
+						} else {
+							src = "global (L); " + outer + "; " + pre + group + "; " + ret
+						}
+					case 1:
+						src = "global (L); " + outer + "; " + pre + "f := func() { " + group + "; " + ret + " }; return f()"
+					default:
+						src = "global (L); " + outer + "; " + pre + "f := func(p) { if p { " + group + "; " + ret + " }; return k }; return [f(1), f(0)]"
+					}
+					check(c, prog{src: src}, []int{0, 1, 2})
+				}
 			}
 		}
 	}
